@@ -30,12 +30,14 @@ const basePort = 9092
 // Sim is one simulated world: one bubble, one kfake cluster, any number of
 // kgo clients, the simulated network and the driver.
 type Sim struct {
-	T       *testing.T
-	P       *plan.Plan
-	Rng     *rand.Rand // scenario-level choices that are not part of the plan
-	Net     *SimNet
-	Cluster *kfake.Cluster
-	NBroker int
+	logDraws bool     // diagnostics: record the seeded-stream position at every log line
+	drawLog  []uint64 // (draws, yield-trace hash) per log line, preallocated
+	T        *testing.T
+	P        *plan.Plan
+	Rng      *rand.Rand // scenario-level choices that are not part of the plan
+	Net      *SimNet
+	Cluster  *kfake.Cluster
+	NBroker  int
 
 	start time.Time
 	seq   atomic.Uint64
@@ -182,6 +184,10 @@ var logRing = 6000
 // Logf appends to the in-memory log ring; nothing is written during a run.
 func (s *Sim) Logf(f string, a ...any) {
 	l := fmt.Sprintf("%12.6f ", s.Now().Seconds()) + fmt.Sprintf(f, a...)
+	if s.logDraws && len(s.drawLog)+2 <= cap(s.drawLog) {
+		d, t := rtDraws()
+		s.drawLog = append(s.drawLog, d, t)
+	}
 	s.mu.Lock()
 	if len(s.logs) < logRing {
 		s.logs = append(s.logs, l)
@@ -242,6 +248,12 @@ func Run(t *testing.T, p *plan.Plan, body func(s *Sim)) *plan.Result {
 	s := &Sim{T: t, P: p, stats: map[string]int64{}, clients: map[string]*kgo.Client{}, topicIDs: map[[16]byte]string{}}
 	s.OnResp = append(s.OnResp, s.learnTopics)
 	s.wirelog = p.Knob("wirelog", 0) != 0
+	if p.Knob("evlog", 0) != 0 {
+		rtEvLogOn()
+	}
+	if s.logDraws = p.Knob("logdraws", 0) != 0; s.logDraws {
+		s.drawLog = make([]uint64, 0, 1<<21)
+	}
 	if v := p.Knob("logring", 0); v > 0 {
 		logRing = int(v)
 	}
@@ -291,11 +303,31 @@ func Run(t *testing.T, p *plan.Plan, body func(s *Sim)) *plan.Result {
 		s.stats["addr_probe"] = int64(uintptr(unsafe.Pointer(x)))
 		s.stats["threads_at_end"] = int64(pprof.Lookup("threadcreate").Count())
 		s.stats["threads_at_start"] = int64(threadsAtStart)
+		nb, names := rtNonBubble()
+		s.stats["nonbubble_readies"] = int64(nb)
+		if names != "" {
+			s.stats["nb:"+names] = 1
+		}
 	}
 	res := &plan.Result{Prop: p.Prop, Seed: p.Seed, Violations: s.viol, OutOfScope: s.oos, Stats: s.stats,
 		TraceHash: fmt.Sprintf("%016x-%016x", s.wireH, th)}
 	if len(s.viol) > 0 || p.Knob("keeplog", 0) != 0 {
 		res.Log = s.logTail(int(p.Knob("logtail", 1500)))
+	}
+	if p.Knob("evlog", 0) != 0 {
+		res.Log = append(res.Log, "EVLOG")
+		for _, e := range rtEvLog() {
+			res.Log = append(res.Log, fmt.Sprintf("ev k=%d g=%d v=%d", e>>56, (e>>32)&0xffffff, e&0xffffffff))
+		}
+	}
+	if s.logDraws {
+		// line i of the log was written at stream position d with yield-trace hash t
+		for i := 0; i+1 < len(s.drawLog); i += 2 {
+			j := i / 2
+			if j < len(res.Log) {
+				res.Log[j] = fmt.Sprintf("[d=%d t=%016x] %s", s.drawLog[i], s.drawLog[i+1], res.Log[j])
+			}
+		}
 	}
 	return res
 }
